@@ -1043,4 +1043,72 @@ theorem setNextHeaders_isFrag (e : Exts) (n : Nat) :
     simp [Exts.setNextHeaders, Exts.isFragmentingPayload, Frag.isFragmentingPayload]
 
 
+/-! ### from_slice_lax vs from_slice -/
+
+
+/-- relation between the results of the strict and the lax copy on the same state. -/
+def LaxAgrees : Except (Fault SliceErr) (Exts × Nat × Bytes) → Except (Fault SliceErr) LaxResult → Prop
+  | .ok (e, n, r), lax => lax = .ok (e, n, r, none)
+  | .error .panic, lax => lax = .error .panic
+  | .error (.err er), lax => ∃ e n r layer, lax = .ok (e, n, r, some (er, layer))
+
+theorem laxLenErr_agrees (slice : Bytes) (result : Exts) (next : Nat) (rest : Bytes) (err : LenError) (layer : Layer) :
+    LaxAgrees (.error (lenErrAt slice rest err)) (laxLenErr slice result next rest err layer) := by
+  unfold laxLenErr
+  cases h : lenErrAt slice rest err with
+  | panic => simp [LaxAgrees]
+  | err e => exact ⟨_, _, _, _, rfl⟩
+
+theorem rawToHeader_err (s : Bytes) (len : Nat) (f : Fault SliceErr) (h : rawToHeader s len = .error f) : f = .panic := by
+  unfold rawToHeader at h
+  split at h <;> simp at h
+  exact h.symm
+
+theorem authToHeader_err {ε : Type} (s : Bytes) (len : Nat) (f : Fault ε) (h : authToHeader s len = .error f) : f = .panic := by
+  unfold authToHeader at h
+  split at h <;> simp at h
+  exact h.symm
+
+theorem laxLoop_agrees (slice : Bytes) (result : Exts) (rest : Bytes) (next : Nat) :
+    LaxAgrees (fromSliceLoop slice result rest next) (fromSliceLaxLoop slice result rest next) := by
+  fun_induction fromSliceLoop slice result rest next
+  all_goals unfold fromSliceLaxLoop
+  all_goals try (simp [LaxAgrees]; done)
+  all_goals (repeat' split)
+  all_goals try (simp_all [LaxAgrees]; done)
+  all_goals try (simp_all; exact laxLenErr_agrees ..)
+  all_goals
+    simp_all
+    first
+    | (have := rawToHeader_err _ _ _ ‹rawToHeader _ _ = Except.error _›; subst this; simp [LaxAgrees])
+    | (have := authToHeader_err _ _ _ ‹authToHeader _ _ = Except.error _›; subst this; simp [LaxAgrees])
+
+
+
+theorem lax_agrees (first : Nat) (slice : Bytes) :
+    LaxAgrees (Exts.fromSlice first slice) (Exts.fromSliceLax first slice) := by
+  unfold Exts.fromSlice Exts.fromSliceLax
+  split
+  · cases hl : rawSliceLen slice with
+    | error err => exact ⟨_, _, _, _, rfl⟩
+    | ok len =>
+      cases hh : rawToHeader slice len with
+      | error f =>
+        have := rawToHeader_err _ _ _ hh
+        subst this
+        simp [LaxAgrees, hh]
+      | ok header => simp only [hh]; exact laxLoop_agrees ..
+  · exact laxLoop_agrees ..
+
+theorem fromSliceLax_no_panic (first : Nat) (slice : Bytes) : ∃ r, Exts.fromSliceLax first slice = .ok r := by
+  have h := lax_agrees first slice
+  have hnp := fromSlice_no_panic first slice
+  cases hs : Exts.fromSlice first slice with
+  | ok r => obtain ⟨e, n, rest⟩ := r; rw [hs] at h; exact ⟨_, h⟩
+  | error f =>
+    cases f with
+    | panic => exact absurd hs hnp
+    | err er => rw [hs] at h; obtain ⟨e, n, r, layer, hr⟩ := h; exact ⟨_, hr⟩
+
+
 end EpModel.Ext
